@@ -310,7 +310,9 @@ CHECKS = {"op": check_op, "without": check_without, "arity": check_arity}
 
 
 def strategies():
-    key = st.one_of(st.sampled_from(["a", "b", "c", "k", "A", "a b", "a&b", "a=b", "a+b", "a;b", "%41", "é", "", "#", "?"]), gen.text(surrogates=False, max_tokens=3))
+    key = st.one_of(st.sampled_from(["a", "b", "c", "k", "A", "a b", "a&b", "a=b", "a+b", "a;b", "%41", "é", "", "#", "?",
+                                      # names that a signature could capture when pairs are passed as keyword arguments
+                                      "query", "query", "args", "kwargs", "encoded", "keep_query"]), gen.text(surrogates=False, max_tokens=3))
     simple = st.one_of(key, key, key.map(lambda k: ["@", "strsub", k]), st.sampled_from([0.0, -0.0, 1e16, -1e22]), st.integers(-10 ** 6, 10 ** 20), st.floats(allow_nan=False, allow_infinity=False), st.integers(0, 9).map(lambda i: ["@", "myint", i]),
                        st.floats(-5, 5).map(lambda f: ["@", "myfloat", f]))
     badv = st.sampled_from([["@", "bool", 1], ["@", "bool", 0], ["@", "none"], ["@", "nan"], ["@", "inf"], ["@", "-inf"], ["@", "bytes", "x"], ["@", "bytearray", "x"],
